@@ -1,5 +1,6 @@
 import LitexProofs.Mem
 import LitexProofs.Wishbone.Sram
+import LitexProofs.Wishbone.SramBurst
 import LitexProofs.Wishbone.Conv
 import LitexProofs.Wishbone.Remap
 import LitexProofs.Wishbone.ToCsr
@@ -80,6 +81,56 @@ example :
     ops (sram c [1, 2, 3, 4, 5, 6, 7, 8]) c.idx ins =
       [{ adr := 2, we := true, sel := [false, true], dat := [0x11, 0x22] },
        { adr := 2, we := false, sel := [true, true], dat := [5, 0x22] }] := by decide
+
+/-! ## SRAM, burst cycles
+
+  `BurstMaster m maxWrap ins`: the master follows the Wishbone registered-feedback burst rules through the whole
+  run (LitexModel/Wishbone/SramBurst.lean): every beat is held until acknowledged; after an acknowledged
+  incrementing beat (`cti = 2`) the next beat follows in the next cycle with `cyc`/`stb` still asserted, the same
+  `we`/`bte`, the next linear/wrapping address and `cti ∈ {2, 7}`; bursts end with `cti = 7`; classic, constant
+  address and lone end-of-burst cycles are single beats; arbitrary gaps between bursts.  `maxWrap = true`
+  additionally limits a wrapping burst to its wrap length (4/8/16 beats). -/
+
+/-- **`wishbone.SRAM` with the burst address counter is a flat byte memory** for incrementing bursts of any
+    length and wrapping bursts up to the wrap length, reads and writes, partial `sel` per beat, mixed with
+    classic cycles and gaps (`_partial`: hypothesis `maxWrap`).
+
+    Full statement (fails on the code, witness below, finding C07-sram-wrap-burst-overrun): the same with
+    `BurstMaster (sram c init) false ins` — wrapping bursts of any length. -/
+theorem sram_burst_refines_mem_partial (c : SramCfg) (hd : 0 < c.depth) (hrw : c.readOnly = false)
+    (hb : c.burst = true) (haw : 4 ≤ c.aw) (init : List Byte) (ins : List (Req × Unit))
+    (hm : BurstMaster (sram c init) true ins) (hadr : ∀ i ∈ ins, i.1.adr < 2 ^ c.aw) :
+    Consistent c.nb (Mem.ofList (Sram.initMem c init)) (ops (sram c init) c.idx ins) ∧
+    AckOnlyStrobed (sram c init) ins :=
+  Sram.burst_run c hd hrw hb haw init ins _ .free _ (Sram.binv_init c init) hm hadr
+
+/-- Non-vacuity: 8-bit, 8-word bursting SRAM; a wrap-4 write burst of 4 beats from address 6 (6,7,4,5), then a
+    linear read burst of 3 beats from 4: one beat per cycle after the first. -/
+example :
+    let c : SramCfg := { nb := 1, depth := 8, aw := 4, readOnly := false, burst := true }
+    let w (a d cti : Nat) : Req × Unit :=
+      ({ cyc := true, stb := true, we := true, adr := a, sel := [true], dat := [d], cti := cti, bte := 1 }, ())
+    let r (a cti : Nat) : Req × Unit :=
+      ({ cyc := true, stb := true, we := false, adr := a, sel := [true], dat := [], cti := cti, bte := 0 }, ())
+    let ins := [w 6 0x66 2, w 6 0x66 2, w 7 0x77 2, w 4 0x44 2, w 5 0x55 7, (Req.idle, ()),
+                r 4 2, r 4 2, r 5 2, r 6 7]
+    BurstMaster (sram c []) true ins ∧
+    (ops (sram c []) c.idx ins).map (fun op => (op.adr, op.we, op.dat)) =
+      [(6, true, [0x66]), (7, true, [0x77]), (4, true, [0x44]), (5, true, [0x55]),
+       (4, false, [0x44]), (5, false, [0x55]), (6, false, [0x66])] := by decide
+
+/-- Negative witness for the excluded region: a wrap-4 read burst of 6 beats from address 2 (2,3,0,1,2,3) over
+    content `mem[a] = a`: beats 5 and 6 return words 6 and 7 — not a flat-memory history. -/
+example :
+    let c : SramCfg := { nb := 1, depth := 8, aw := 4, readOnly := false, burst := true }
+    let r (a cti : Nat) : Req × Unit :=
+      ({ cyc := true, stb := true, we := false, adr := a, sel := [true], dat := [], cti := cti, bte := 1 }, ())
+    let ins := [r 2 2, r 2 2, r 3 2, r 0 2, r 1 2, r 2 2, r 3 7]
+    BurstMaster (sram c [0, 1, 2, 3, 4, 5, 6, 7]) false ins ∧
+    (ops (sram c [0, 1, 2, 3, 4, 5, 6, 7]) c.idx ins).map (fun op => (op.adr, op.dat)) =
+      [(2, [2]), (3, [3]), (0, [0]), (1, [1]), (2, [6]), (3, [7])] ∧
+    ¬ Consistent c.nb (Mem.ofList [0, 1, 2, 3, 4, 5, 6, 7]) (ops (sram c [0, 1, 2, 3, 4, 5, 6, 7]) c.idx ins) := by
+  decide
 
 /-! ## Width converters in front of a byte memory with arbitrary latency
 
